@@ -184,3 +184,13 @@ META["C26"] = E("differential oracle across a serde_json round trip: values vs r
     "and after a further revision; persisted memos verified in the revision of serialization must be served without executing; a panic in "
     "serialize/deserialize is a violation. Known findings F3, F14 and F15 are reported as KNOWN-FINDING by signature.",
     SINGLE_NOTE, "E-single (persist cfg)")
+
+META["C23"] = E("compiler sanitizers and an undefined-behaviour interpreter over generated histories, plus reference revalidation",
+    "Exploration: the single-threaded history families (evictions, tracked-struct deletion, interned reclamation, specify, fixpoint and "
+    "cycle_result cycles incl. fixpoint functions that are also lru) run natively, under AddressSanitizer (~1.6*10^4 histories quick, ~10^6 thorough) "
+    "and under Miri (4 histories quick, 80 thorough: use-after-free, out-of-bounds, invalid borrows, data races, and memory still allocated "
+    "after the database was dropped are reported). Every reference returned by a tracked function is remembered with its value and re-read "
+    "just before the next mutable borrow. Thorough adds OS-thread workloads (readers, cycles, writer+readers, cancellation, injected panics) "
+    "under ASan and valgrind memcheck on the native binary.",
+    "Trusted base: rustc's AddressSanitizer runtime, Miri, valgrind; the harness's retention list. A clean run is not memory safety (see assumptions).",
+    "E-single under native / ASan / Miri (+ E-os, E-fault under ASan, memcheck in thorough)")
